@@ -544,6 +544,13 @@ class Oracles:
             if len(items) != self.erec[eid].count:
                 self.violate("C03", "edge-contents-vs-history", self.elabel(eid),
                              f"edge {eid} holds {len(items)} items but puts-gets = {self.erec[eid].count}")
+            else:
+                # ... and they are the very items that were put and not yet taken (each exactly once)
+                have = sorted(str(getattr(x, "id", x)) for x in items)
+                want = sorted(str(k) for k in self.erec[eid].inside)
+                if have != want:
+                    self.violate("C03", "edge-contents-vs-history", self.elabel(eid) + ",identity",
+                                 f"edge {eid} holds {have[:8]} but the items put and not yet taken are {want[:8]}")
         packed = sum(len(o.items) for o in run.items.values() if hasattr(o, "items"))
         in_nodes = 0
         for nid, nr in self.nrec.items():
@@ -603,6 +610,9 @@ class Oracles:
                             if self.edge_room(e) > 0:
                                 self.violate("C10", "room-but-not-pushed", self.nlabel(nid) + "," + self.elabel(e),
                                              f"{nid} holds finished {waiting[0]['item']} at end of instant {now} although out-edge {e} has room")
+                                self.violate("C08", "held-although-out-edge-has-room", self.nlabel(nid) + "," + self.elabel(e),
+                                             f"{nid} still holds {waiting[0]['item']} (finished at {waiting[0]['finish']}) at end of instant {now} although out-edge {e}, "
+                                             f"which its policy permits, is able to accept it")
                         by_edge = {}
                         for tk in ptoks:
                             by_edge[tk.edge] = by_edge.get(tk.edge, 0) + 1
@@ -731,6 +741,8 @@ class Oracles:
                 if self.edge_room(e) > 0:
                     self.violate("C10", "room-but-not-pushed", self.nlabel(nid) + "," + self.elabel(e),
                                  f"{nid} holds finished {life['item']} (finished at {fin}) at end of instant {now} although out-edge {e} has room")
+                    self.violate("C08", "held-although-out-edge-has-room", self.nlabel(nid) + "," + self.elabel(e),
+                                 f"{nid} still holds its unit {life['item']} (finished at {fin}) at end of instant {now} although out-edge {e}, which its policy permits, is able to accept it")
                     break
 
     def check_unit_input(self, nid, nr, node, now):
